@@ -32,10 +32,17 @@ class PickOutOfRange(Exception):
 
 
 def pick(x, n):
-    """Concretise selector x in range(n) by an explicit comparison chain (exact decision tree)."""
-    for v in range(n):
-        if x == v:
-            return v
+    """Concretise selector x in range(n) by explicit comparisons (exact decision tree, binary splitting:
+    every value of range(n) is reached by exactly one sequence of branch decisions)."""
+    lo, hi = 0, n
+    while hi - lo > 1:
+        mid = (lo + hi) // 2
+        if x < mid:
+            hi = mid
+        else:
+            lo = mid
+    if x == lo:
+        return lo
     raise PickOutOfRange(n)
 
 
